@@ -100,7 +100,55 @@ def run(name, props):
     print("caught by:", meta["caught_by"])
 
 
+def evalcopy(names, props):
+    """run the quick checks against seeded changes in a private copy of /verif and a scratch worktree of /repo
+    (so that /repo and /verif stay free meanwhile); results go to seeded/<name>/meta.json as with `run`"""
+    base = os.environ.get("VERIF_EVAL_DIR", "/tmp/evalcopy")
+    vr, rp = os.path.join(base, "verif"), os.path.join(base, "repo")
+    os.makedirs(base, exist_ok=True)
+    if os.path.exists(rp):
+        sh(["git", "-C", "/repo", "worktree", "remove", "--force", rp])
+    sh(["git", "-C", "/repo", "worktree", "add", "--detach", rp, "HEAD"])
+    sh(["rsync", "-a", "--delete", "--exclude", "work", "--exclude", ".git", ROOT + "/", vr + "/"])
+    ct = os.path.join(vr, "harness", "Cargo.toml")
+    open(ct, "w").write(open(ct).read().replace('path = "/repo"', f'path = "{rp}"'))
+    env = dict(ENV, VERIF_REPO=rp, QVNT_REPO=rp,
+               VERIF_EVIDENCE_DIR=os.path.join(vr, "work", "seed_evidence"), VERIF_REPLAYS_DIR=os.path.join(vr, "work", "seed_replays"))
+    if not props:
+        sys.path.insert(0, os.path.join(ROOT, "tools"))
+        from props import PROPS
+        props = sorted(PROPS)
+    for name in names:
+        d = os.path.join(ROOT, "seeded", name)
+        meta = json.load(open(os.path.join(d, "meta.json")))
+        p0 = subprocess.run(["git", "-C", rp, "apply", os.path.join(d, "patch.diff")], capture_output=True, text=True)
+        if p0.returncode != 0:
+            print(name, "patch does not apply:", p0.stderr[:300]); continue
+        meta["check_results"] = {}
+        for p in props:
+            t0 = time.time()
+            q = subprocess.run([os.path.join(vr, "check"), p, "--tier", "quick"], cwd=vr, env=env, stdout=subprocess.PIPE, stderr=subprocess.STDOUT, text=True, timeout=3600)
+            viol = [l for l in q.stdout.splitlines() if l.startswith("VIOLATION")]
+            meta["check_results"][p] = {"exit": q.returncode, "violation_line": viol[0].replace(vr, ROOT) if viol else None, "wall_s": round(time.time() - t0, 1)}
+            if viol:
+                path = viol[0].split("replay=")[1].split()[0]
+                if os.path.exists(path):
+                    import shutil
+                    shutil.copy(path, os.path.join(d, f"replay-{p}.trace"))
+        subprocess.run(["git", "-C", rp, "checkout", "--", "."])
+        meta["caught_by"] = sorted(p for p, r in meta["check_results"].items() if r["exit"] != 0)
+        meta["evaluated_in"] = "private copy of /verif + scratch worktree of /repo (tools/seed_eval.py evalcopy)"
+        json.dump(meta, open(os.path.join(d, "meta.json"), "w"), indent=1)
+        print(name, "breaks", meta.get("breaks_property"), "caught by:", meta["caught_by"], flush=True)
+    sh(["git", "-C", "/repo", "worktree", "remove", "--force", rp])
+    sh(["rm", "-rf", base])
+
+
 if __name__ == "__main__":
+    if sys.argv[1] == "evalcopy":
+        names = [a for a in sys.argv[2:] if not (a.startswith("C") and len(a) == 3)]
+        evalcopy(names, [a for a in sys.argv[2:] if a.startswith("C") and len(a) == 3])
+        sys.exit(0)
     if sys.argv[1] == "harvest":
         sys.exit(0 if harvest(sys.argv[2], sys.argv[3], sys.argv[4]) else 1)
     elif sys.argv[1] == "run":
